@@ -70,7 +70,7 @@ Denote(t, subs) ==
                  [] OTHER -> BOT)
          ELSE IF f = "set" /\ Len(args) = 0 /\ Len(kws) = 0 THEN <<"set", <<>>>>
          ELSE IF f = "frozenset" /\ Len(kws) = 0 /\ Len(args) = 0 THEN <<"frozenset", <<>>>>
-         ELSE IF f = "frozenset" /\ Len(kws) = 0 /\ Len(args) = 1 /\ args[1][1] = "list"
+         ELSE IF f = "frozenset" /\ Len(kws) = 0 /\ Len(args) = 1 /\ args[1][1] \in {"list", "tuple", "set"}
               THEN LET xs == DenoteSeq(args[1][2], subs) IN IF AnyBot(xs) THEN BOT ELSE <<"frozenset", xs>>
          ELSE IF \E s \in subs : s[1] = f
               THEN LET kind == (CHOOSE s \in subs : s[1] = f)[2] IN
@@ -79,8 +79,8 @@ Denote(t, subs) ==
                    ELSE IF Len(args) = 1
                         THEN LET x == Denote(args[1], subs) IN
                              IF IsBot(x) THEN BOT
-                             \* a frozenset has no literal: its elements are given as a list
-                             ELSE IF kind = "frozenset" /\ x[1] = "list" THEN <<"sub", f, <<"frozenset", x[2]>>>>
+                             \* a frozenset has no literal: its elements are given as a list (or any other literal iterable)
+                             ELSE IF kind = "frozenset" /\ x[1] \in {"list", "tuple", "set"} THEN <<"sub", f, <<"frozenset", x[2]>>>>
                              \* inf / nan have no literal either: Sub('inf') like float('inf')
                              ELSE IF kind = "float" /\ x[1] = "str" /\ x[2] = <<105, 110, 102>>
                                   THEN <<"sub", f, <<"float", "inf">>>>
